@@ -33,6 +33,7 @@ func checkC05(w *World, r *Report) {
 	r.Explanation += " Rules added in later rounds: (R05.12) no bound from narrow-integer arithmetic; (R05.13) constant look-arounds next to searched offsets are guarded; (R05.14) every key of a reflect MapIndex/SetMapIndex comes out of a map, is a basic Go value, or passed Comparable() on every path, and its type fits; (R05.15) necessary condition of termination for the tokenizer's scan loops: no way round the loop's exit test avoids a store of the position (feasibility over the 256 values of the current byte, byte-class predicates by truth table)."
 	r.Explanation += " Round 10: reflect Slice is legal on slices and strings only; (R05.16) loop counters are not advanced by a possibly-zero length; tagless switch cases refine index facts."
 	r.Explanation += " Round 11: (R05.17) indexes into []rune(s) are checked against the rune count."
+	r.Explanation += " Round 12: (R05.18) field paths are followed with FieldByIndexErr; (R05.19) tables of a render context are allocated when they are written."
 	r.RuleText = "obligation = one potential panic site of the enumerated families; non-trivial = sites that needed a dominance or interval argument (everything except constant/loop-bounded indexes)"
 	r.Trusted = []string{"go/types constant evaluation", "the Go runtime's definition of which reflect calls panic on which kinds"}
 
